@@ -169,6 +169,25 @@ static int parse_and_verify(KSI_CTX *ctx, const unsigned char *p, size_t n, int 
 	return v;
 }
 
+/* the file object was parsed under another context (which trusts the good CA and accepts the good e-mail address): the
+ * context given to the verification call decides */
+static int verify_cross(KSI_CTX *vctx, const unsigned char *p, size_t n) {
+	KSI_CTX *pctx = trusting_ctx(0, 1);
+	KSI_PublicationsFile *pf = NULL;
+	unsigned char *ex = ku_exact(p, n);
+	int v = -1, v2;
+	if (KSI_PublicationsFile_parse(pctx, ex, n, &pf) == KSI_OK) {
+		v = KSI_PublicationsFile_verify(pf, vctx);
+		v2 = KSI_verifyPublicationsFile(vctx, pf);
+		vf_count("impl_calls", 3);
+		if ((v == KSI_OK) != (v2 == KSI_OK)) vf_fail("verify-disagree", "cross-context: KSI_PublicationsFile_verify=0x%x but KSI_verifyPublicationsFile=0x%x", v, v2);
+	}
+	KSI_PublicationsFile_free(pf);
+	free(ex);
+	KSI_CTX_free(pctx);
+	return v;
+}
+
 static void part_trust(void) {
 	int anchor, cons, signer;
 	/* matrix: signer x anchor x constraint set */
@@ -192,6 +211,13 @@ static void part_trust(void) {
 		else if (expect && v != KSI_OK) vf_fail("trusted-file-refused", "signer %d anchor %d constraints %d: verification failed 0x%x", signer, anchor, cons, v);
 		else if (!expect && v == KSI_OK) vf_fail("untrusted-file-trusted", "signer %d anchor %d constraints %d: file reported trusted", signer, anchor, cons);
 		vf_obs("v=%x", v);
+		if (pres == KSI_OK) {
+			int vx = verify_cross(ctx, b.p, b.n);
+			vf_outcome("trust-cross:%s:%s", expect ? "trusted-expected" : "untrusted-expected", vx == KSI_OK ? "trusted" : "refused");
+			if (expect && vx != KSI_OK) vf_fail("trusted-file-refused", "signer %d anchor %d constraints %d, file parsed under another context: verification failed 0x%x", signer, anchor, cons, vx);
+			else if (!expect && vx == KSI_OK) vf_fail("untrusted-file-trusted", "signer %d anchor %d constraints %d: file parsed under another (trusting) context reported trusted by this one", signer, anchor, cons);
+			vf_obs("vx=%x", vx);
+		}
 		vb_free(&b);
 		KSI_CTX_free(ctx);
 		vf_case_end(1);
